@@ -25,6 +25,15 @@ class Backend(object):
         self.inits = 0
         self.protocol_errors = []    # backend calls that PortAudio would refuse
         self.owner = sched._cur      # set again by the run (see props/c17.py)
+        # fault injection (props/c17.py): {"write": {stream index: number of writes that succeed
+        # before one raises}, "open": [ordinals of the pa.open calls that raise]}
+        self.faults = {}
+        self.open_calls = 0
+        self.apis = []               # host API infos (dicts) for AudioIO(api=...)
+        self.input = {}              # stream index -> function(read ordinal, nframes) -> bytes
+
+    def injected(self, what):
+        raise IOError("injected %s failure" % what)
 
     def error(self, what):
         self.protocol_errors.append(what)
@@ -48,6 +57,7 @@ class FakeStream(object):
         self.kwargs = dict(kwargs)
         self.state = "active" if kwargs.get("start", True) else "stopped"
         self.writes = []             # (bytes, nframes)
+        self.reads = []              # nframes of each read (input streams)
         self.calls = []
         self.be = _backend
 
@@ -86,6 +96,18 @@ class FakeStream(object):
     def write(self, frames, num_frames=None, exception_on_underflow=False):
         return write_stream(self, frames, num_frames, exception_on_underflow)
 
+    def read(self, num_frames, exception_on_overflow=True):
+        def eff():
+            self._check_alive("read")
+            if not self.kwargs.get("input"):
+                self.be.error("%s.read on an output stream" % self._name())
+            k = len(self.reads)
+            self.calls.append("read")
+            data = self.be.input[self.index](k, num_frames)
+            self.reads.append(num_frames)
+            return data
+        return sched.backend_op(self._name() + ".read", eff, self.be.owner)
+
     def is_active(self):
         return self.state == "active"
 
@@ -98,6 +120,10 @@ def write_stream(st, data, nframes, exception_on_underflow=False):
         st._check_alive("write")
         if st.state != "active":
             st.be.error("%s.write on a stopped stream" % st._name())
+        ok = st.be.faults.get("write", {}).get(st.index)
+        if ok is not None and len(st.writes) >= ok:
+            st.calls.append("write!")
+            st.be.injected("write")
         st.calls.append("write")
         st.writes.append((bytes(data), nframes))
     return sched.backend_op(st._name() + ".write", eff, st.be.owner)
@@ -114,6 +140,9 @@ class PyAudio(object):
             b = self.be
             if b.terminates:
                 b.error("pa.open after terminate")
+            b.open_calls += 1
+            if (b.open_calls - 1) in b.faults.get("open", ()):
+                b.injected("open")
             st = FakeStream(self, len(b.streams), kwargs)
             b.streams.append(st)
             b.opens += 1
@@ -134,7 +163,10 @@ class PyAudio(object):
         return sched.backend_op("pa.terminate", eff, self.be.owner)
 
     def get_host_api_count(self):
-        return 0
+        return len(self.be.apis)
+
+    def get_host_api_info_by_index(self, k):
+        return dict(self.be.apis[k])
 
 
 def _module(name, **attrs):
